@@ -1,5 +1,6 @@
 """C15 Advertised service instances are discovered faithfully (partial: record kinds agree between the two directions; ingest filter)."""
 import itertools
+import re
 from common import Report, Violation
 import tables
 from tables import Evaluator, EnumVal, Opaque, NotATable
@@ -111,12 +112,171 @@ def behind_filter(x, op, filter_closure_id, depth=40):
     return False, "flow too long"
 
 
+def _block_consts(bl):
+    """constant operands of a block (statements and call arguments)"""
+    out = []
+
+    def op(o):
+        if isinstance(o, dict) and o.get("o") == "const":
+            out.append(o["k"])
+    for s in bl["stmts"]:
+        if s["s"] != "assign":
+            continue
+        rv = s["rv"]
+        for key in ("op", "a", "b"):
+            if key in rv:
+                op(rv[key])
+        for o in rv.get("ops", []):
+            op(o)
+    t = bl["term"]
+    if t["t"] == "call":
+        for a in t["args"]:
+            op(a)
+    return out
+
+
+def _has_eq_const(bl):
+    for k in _block_consts(bl):
+        if k.get("c") == "int":
+            if str(k.get("v")) == "61":
+                return True
+        elif "=" in str(k.get("s", "")) or "=" in str(k.get("v", "")):
+            return True
+    return False
+
+
+OPT_STRING = re.compile(r"Option<(std::string::|alloc::string::)?String>$")
+
+
+def _presence_switches(x, type_re=None, of_local=None):
+    """switches on the discriminant of an Option place: (block, none target, some target)"""
+    out = []
+    defs = mu.defs_of(x)
+    for bi, bl in enumerate(x.blocks):
+        t = bl["term"]
+        if bl["cleanup"] or t["t"] != "switch":
+            continue
+        l = mu.op_local(t["discr"])
+        d = mu.single_def(defs, l) if l is not None else None
+        if d is None or d[1] == "term" or d[2]["k"] != "discr":
+            continue
+        pl = d[2]["pl"]
+        if type_re is not None and not type_re.search(x.ty(pl["t"])["s"]):
+            continue
+        if of_local is not None and (pl["p"] or mu.origin_local(x, defs, pl["l"]) != of_local):
+            continue
+        arms = {int(v): tg for v, tg in t["arms"]}
+        some = arms.get(1, t["otherwise"] if 1 not in arms else None)
+        none = arms.get(0, t["otherwise"] if 0 not in arms else None)
+        if some is None or none is None or some == none:
+            continue
+        out.append((bi, none, some))
+    return out
+
+
+def attribute_rules(ctx, report):
+    """R3 / R4: the attribute writer (TXT from a map) and the attribute reader (TXT::attributes) agree on how an absent
+    value differs from a present one: `key` alone means absent, `key=...` means present (possibly empty)."""
+    prog = ctx.prog
+    # ---- R3 writer
+    w = ctx.must_find(report, "simple_dns::<TXT as TryFrom<HashMap<String, Option<String>>>>::try_from")
+    if w is not None:
+        report.count()
+        found = []
+        for x in [w] + mu.closures_of(prog, w):
+            sws = _presence_switches(x, type_re=OPT_STRING)
+            if sws:
+                # a match with guards re-tests the same discriminant further down: the dominating test opens the arms
+                domx = mu.dominators(x)
+                sws.sort(key=lambda e: len(domx[e[0]]))
+                places = {repr(mu.single_def(mu.defs_of(x), mu.op_local(x.blocks[e[0]]["term"]["discr"]))[2]["pl"]) for e in sws}
+                if len(places) == 1 and all(sws[0][0] in domx[e[0]] for e in sws):
+                    found.append((x, sws[0]))
+                else:
+                    found += [(x, e) for e in sws]
+        if len(found) != 1:
+            viol(report, "C15-R3", w, "no-presence-match", "the attribute writer does not branch exactly once on whether the value is "
+                 "present (found %d such matches): cannot show `key` is written for an absent value and `key=value` for a present one" % len(found))
+        else:
+            x, (sw, none_t, some_t) = found[0]
+            sinks = {bi for bi, t in mu.calls(x, r"(TXT::<'a>::|TXT::)add_char_string$")}
+            if x is not w:
+                sinks |= {bi for bi, bl in enumerate(x.blocks) if bl["term"]["t"] == "return"}
+            eqb = {bi for bi, bl in enumerate(x.blocks) if not bl["cleanup"] and _has_eq_const(bl)}
+            if not sinks:
+                viol(report, "C15-R3", w, "no-sink", "the attribute writer does not add a character-string per entry")
+            else:
+                bad_some = mu.reachable_from(x, some_t, avoid={sw} | eqb) & sinks
+                before_sink_none = mu.reachable_from(x, none_t, avoid={sw} | sinks)
+                bad_none = before_sink_none & eqb
+                if bad_some:
+                    viol(report, "C15-R3", w, "present-without-eq", "a present value can reach the character-string at bb%s without a `=` "
+                         "having been written: the reader maps a bare key to an absent value, so a present (e.g. empty) value is not "
+                         "discovered as advertised" % sorted(bad_some))
+                if bad_none:
+                    viol(report, "C15-R3", w, "absent-with-eq", "an absent value is written with a `=` (bb%s): the reader maps `key=` to a "
+                         "present empty value" % sorted(bad_none))
+                if not bad_some and not bad_none:
+                    report.nontriv("attribute writer: `=` exactly when the value is present")
+                    report.sample({"rule": "R3", "writer": w.qname, "presence match": "bb%d" % sw, "blocks writing `=`": sorted(eqb),
+                                   "sinks": sorted(sinks)})
+    # ---- R4 reader
+    r = ctx.must_find(report, "simple_dns::TXT::attributes")
+    if r is not None:
+        report.count()
+        dom = mu.dominators(r)
+        nexts = [(bi, t) for bi, t in mu.calls(r, r"SplitN<.*Iterator>::next$")]
+        splitn = [(bi, t) for bi, t in mu.calls(r, r"<impl \[T\]>::splitn$")]
+        okform = len(splitn) == 1 and len(nexts) == 2
+        if okform:
+            a2 = splitn[0][1]["args"][1]
+            okform = a2.get("o") == "const" and str(a2["k"].get("v")) == "2"
+            cl = [c for c in mu.closures_of(prog, r)]
+            okform = okform and any(_has_eq_const(bl) for c in cl for bl in c.blocks if not bl["cleanup"])
+        if not okform:
+            viol(report, "C15-R4", r, "split-form", "the attribute reader does not split each entry once at the first `=` "
+                 "(expected one splitn(2, |c| *c == b'=') with two next() calls; found %d splitn, %d next)" % (len(splitn), len(nexts)))
+        else:
+            nexts.sort(key=lambda e: len(dom[e[0]]))
+            vb, vt = nexts[1]
+            if nexts[0][0] not in dom[vb] or vt["dest"]["p"]:
+                viol(report, "C15-R4", r, "split-form", "the two next() calls of the attribute reader are not in sequence")
+            else:
+                sws = _presence_switches(r, of_local=vt["dest"]["l"])
+                sinks = {bi for bi, t in mu.calls(r, r"(Entry::<.*>::or_insert|HashMap::<.*>::insert|Entry::<.*>::or_insert_with)$")}
+                if not sws or not sinks:
+                    viol(report, "C15-R4", r, "no-presence-match", "the attribute reader does not branch on whether a second piece exists "
+                         "(%d matches, %d stores)" % (len(sws), len(sinks)))
+                else:
+                    sw, none_t, some_t = sorted(sws, key=lambda e: len(dom[e[0]]))[0]
+                    optagg = {}
+                    for bi, si, s in mu.aggregates(r, "Option"):
+                        if OPT_STRING.search(r.ty(s["pl"]["t"])["s"]):
+                            optagg.setdefault(s["rv"]["vn"], set()).add(bi)
+                    some_region = mu.reachable_from(r, some_t, avoid={sw} | sinks)
+                    none_region = mu.reachable_from(r, none_t, avoid={sw} | sinks)
+                    bad1 = some_region & optagg.get("None", set())
+                    bad2 = none_region & optagg.get("Some", set())
+                    if bad1:
+                        viol(report, "C15-R4", r, "present-read-as-absent", "an entry with a `=` can be stored with an absent value (bb%s)" % sorted(bad1))
+                    if bad2:
+                        viol(report, "C15-R4", r, "absent-read-as-present", "an entry without `=` can be stored with a present value (bb%s)" % sorted(bad2))
+                    if not (optagg.get("None") and optagg.get("Some")):
+                        viol(report, "C15-R4", r, "no-value-built", "the attribute reader does not build both an absent and a present value")
+                    elif not bad1 and not bad2:
+                        report.nontriv("attribute reader: value present exactly when the entry has a `=`")
+                        report.sample({"rule": "R4", "reader": r.qname, "presence match": "bb%d" % sw,
+                                       "Some built in": sorted(optagg["Some"]), "None built in": sorted(optagg["None"])})
+
+
 def run(ctx):
     prog = ctx.prog
     report = Report("C15", ctx, "R1 the RData variants InstanceInformation::into_records builds (A, AAAA, SRV, TXT) are exactly the variants "
                     "from_records consumes, and each arm stores into the matching collection (A/AAAA -> ip_addresses, SRV.port -> ports, "
                     "TXT -> attributes); R2 in both back-ends every record handed to add_cached_resource passed the filter "
-                    "name != own instance AND name.is_subdomain_of(service).")
+                    "name != own instance AND name.is_subdomain_of(service); R3 the attribute writer (TXT from a map) writes a `=` on every path of "
+                    "a present value and on no path of an absent one; R4 the attribute reader (TXT::attributes) splits once at the first `=` "
+                    "and stores a present value exactly when a second piece exists.")
     ir = ctx.must_find(report, "simple_mdns::InstanceInformation::into_records")
     fr = ctx.must_find(report, "simple_mdns::InstanceInformation::from_records")
     if ir is None or fr is None:
@@ -243,6 +403,7 @@ def run(ctx):
             else:
                 viol(report, "C15-R2", x, "unfiltered-" + what, "a record %s by %s does not come out of the own-instance / subdomain filter: %s" % (
                     what, b.qname, why))
+    attribute_rules(ctx, report)
     report.floor("ingest filters verified", n, 2)
     report.sample({"rule": "R2", "filter": "aw.name != full_name && aw.name.is_subdomain_of(service_name)"})
     report.assumptions += ["set / attribute equality across the wire and the escape / unescape inverse are value-level and not decided"]
